@@ -365,10 +365,40 @@ func checkReadCall(p *core.Program, r *core.Report, fn *ssa.Function, call *ssa.
 // does not return (os.Exit, log.Fatal*), or a return whose last result is a
 // non-nil error.
 func failsClosed(b *ssa.BasicBlock, seen map[*ssa.BasicBlock]bool) bool {
+	return failsClosedFrom(nil, b, seen)
+}
+
+// failsClosedFrom: as failsClosed, entered through the edge prev -> b. A merge that tests an error
+// freshly made on that edge against nil (the shape an expanded validation helper leaves behind) is
+// followed along its error branch only.
+func failsClosedFrom(prev, b *ssa.BasicBlock, seen map[*ssa.BasicBlock]bool) bool {
 	if seen[b] {
 		return true
 	}
 	seen[b] = true
+	if prev != nil && len(b.Instrs) > 0 {
+		if iff, ok := b.Instrs[len(b.Instrs)-1].(*ssa.If); ok {
+			if cmp, ok := iff.Cond.(*ssa.BinOp); ok && (cmp.Op == token.NEQ || cmp.Op == token.EQL) && core.IsNilConst(cmp.Y) {
+				if phi, ok := cmp.X.(*ssa.Phi); ok && phi.Block() == b {
+					pure := true
+					for _, in := range b.Instrs[:len(b.Instrs)-1] {
+						if _, isPhi := in.(*ssa.Phi); !isPhi && in != ssa.Instruction(cmp) {
+							pure = false
+						}
+					}
+					for i, pb := range b.Preds {
+						if pb == prev && pure && isFreshError(phi.Edges[i]) {
+							next := b.Succs[0]
+							if cmp.Op == token.EQL {
+								next = b.Succs[1]
+							}
+							return failsClosedFrom(b, next, seen)
+						}
+					}
+				}
+			}
+		}
+	}
 	for _, in := range b.Instrs {
 		switch x := in.(type) {
 		case *ssa.Panic:
@@ -393,7 +423,7 @@ func failsClosed(b *ssa.BasicBlock, seen map[*ssa.BasicBlock]bool) bool {
 		return false
 	}
 	for _, s := range b.Succs {
-		if !failsClosed(s, seen) {
+		if !failsClosedFrom(b, s, seen) {
 			return false
 		}
 	}
